@@ -92,16 +92,25 @@ def make_sir_rule(rule, G):
 def make_sis_rule(rule, G):
     kind = rule['kind']
     tau, gamma = rule.get('tau', 1.0), rule.get('gamma', 1.0)
+    index = {u: i for i, u in enumerate(G)}
+    shared = {}
 
     def dur(u):
         if kind == 'exp':
             return random.expovariate(gamma)
         if kind == 'const':
             return rule.get('D', 1.0)
+        if kind == 'lattice':
+            return 1 + (index[u] * 7 + 3) % 4          # whole days, different from node to node
         return random.uniform(0.2, 2.0)
 
     def delays(u, v, d):
         out = []
+        if kind == 'lattice':
+            # whole-day schedules kept by the user: the very same list object is handed out for every contact of u, every time
+            if u not in shared:
+                shared[u] = [k for k in (1, 2, 3) if (index[u] + k) % 3 != 0 and k < dur(u)]     # within u's own infectious period
+            return shared[u]
         if kind == 'exp':
             if tau <= 0:
                 return out
@@ -337,7 +346,7 @@ def random_sim_case(r, sim, nmax=14, tmaxes=None):
         case['graph'] = m['graph']
         case.update({'wm': m['wm'], 'tau': m['tau'], 'gamma': m['gamma']})
     if sim in ('fast_nonMarkov_SIR', 'fast_nonMarkov_SIS'):
-        case['rule'] = {'kind': r.choice(['exp', 'const', 'unif']), 'tau': r.choice([0.5, 1.0, 2.5]),
+        case['rule'] = {'kind': r.choice(['exp', 'const', 'unif'] + (['lattice'] if sim == 'fast_nonMarkov_SIS' else [])), 'tau': r.choice([0.5, 1.0, 2.5]),
                         'gamma': r.choice([0.5, 1.0, 2.0]), 'D': r.choice([0.5, 1.0]), 'form': r.choice(['sep', 'joint'])}
     if sim == 'Gillespie_simple_contagion':
         name = r.choice(specs.SPEC_NAMES + ['random'])
